@@ -884,7 +884,19 @@ func c17Replay(i int, raw []byte) Result {
 		}
 	}
 	v := c17Observe(path, exps)
-	if m := c17Check(v, exps, covered, kinds, c.RowR, merges, stale); m != nil {
+	m := c17Check(v, exps, covered, kinds, c.RowR, merges, stale)
+	if m == nil {
+		// entry-point audit: the other public views
+		// one view per case in quick, two in thorough, rotating: every view sees an even share of all cases
+		which := []string{c17ExtraViews[i%len(c17ExtraViews)]}
+		if tier() != "quick" {
+			which = append(which, c17ExtraViews[(i/len(c17ExtraViews)+i+1)%len(c17ExtraViews)])
+		}
+		xv, xe, xp := c17Extra(path, exps, merges, which)
+		res.Evals += len(xv)
+		m = c17CheckExtra(xv, xe, xp, exps, covered, kinds, c.RowR, stale)
+	}
+	if m != nil {
 		r := fail(m.View, "C17:"+m.View+":"+m.Symptom, fmt.Sprintf("sheet %d, %s view: %s", m.Sheet+1, m.View, m.What),
 			map[string]interface{}{"case": json.RawMessage(raw), "observed": c17ObsDump(v)})
 		r.Nontrivial, r.Key, r.Evals = res.Nontrivial, res.Key, 4
